@@ -21,11 +21,12 @@ type SolverConfig struct {
 	Prelude string   // sent after every reset
 	Check   string   // check-sat command (may be a check-sat-using tactic)
 	IsCVC5  bool
+	Fast    bool // raced alone in the first, short stage
 }
 
 var (
 	CfgZ3      = SolverConfig{Name: "z3-4.8.12", Cmd: []string{"z3", "-in"}, Check: "(check-sat)"}
-	CfgZ3New   = SolverConfig{Name: "z3-5.1.0", Cmd: []string{"z3-new", "-in"}, Check: "(check-sat)"}
+	CfgZ3New   = SolverConfig{Name: "z3-5.1.0", Cmd: []string{"z3-new", "-in"}, Check: "(check-sat)", Fast: true}
 	CfgZ3Leg   = SolverConfig{Name: "z3-4.8.12/arith.solver=2", Cmd: []string{"z3", "-in"}, Check: "(check-sat-using (then simplify solve-eqs (using-params smt :arith.solver 2)))"}
 	CfgZ3NewLg = SolverConfig{Name: "z3-5.1.0/arith.solver=2", Cmd: []string{"z3-new", "-in"}, Check: "(check-sat-using (then simplify solve-eqs (using-params smt :arith.solver 2)))"}
 	CfgZ3NewLI = SolverConfig{Name: "z3-5.1.0/qflia", Cmd: []string{"z3-new", "-in"}, Check: "(check-sat-using (then simplify solve-eqs qflia))"}
@@ -444,6 +445,28 @@ func (pf *Portfolio) Solve(scripts []string, vars []string, budgetsMs []int) Ver
 		}
 		pf.procs = append(pf.procs, row)
 	}
+	// stage 1: the configuration that wins most often, alone, with a short budget (keeps the cores free);
+	// stage 2: every (profile x configuration) pair with the full budget.
+	var errs []string
+	fast := -1
+	for i, c := range pf.cfgs {
+		if c.Fast {
+			fast = i
+		}
+	}
+	if fast >= 0 && budget > 4000 {
+		if v, ok := pf.race(scripts, vars, 3000, func(si, i int) bool { return i == fast }, &errs); ok {
+			v.Seconds = time.Since(t0).Seconds()
+			return v
+		}
+	}
+	v, _ := pf.race(scripts, vars, budget, func(si, i int) bool { return true }, &errs)
+	v.Seconds = time.Since(t0).Seconds()
+	v.Errors = errs
+	return v
+}
+
+func (pf *Portfolio) race(scripts []string, vars []string, budget int, use func(si, i int) bool, errs *[]string) (Verdict, bool) {
 	type ans struct {
 		res   string
 		model map[string]string
@@ -454,6 +477,9 @@ func (pf *Portfolio) Solve(scripts []string, vars []string, budgetsMs []int) Ver
 	ch := make(chan ans, len(scripts)*len(pf.cfgs))
 	for si, script := range scripts {
 		for i, p := range pf.procs[si] {
+			if !use(si, i) {
+				continue
+			}
 			n++
 			go func(si, i int, p *SolverProc, script string) {
 				res, m := p.RunScript(script, vars, budget)
@@ -461,21 +487,20 @@ func (pf *Portfolio) Solve(scripts []string, vars []string, budgetsMs []int) Ver
 			}(si, i, p, script)
 		}
 	}
-	var errs []string
 	got := map[[2]int]bool{}
 	var win *ans
 	for k := 0; k < n; k++ {
 		a := <-ch
 		got[[2]int{a.si, a.i}] = true
 		if strings.HasPrefix(a.res, "error") {
-			errs = append(errs, a.name+": "+a.res)
+			*errs = append(*errs, a.name+": "+a.res)
 		}
 		if (a.res == "sat" || a.res == "unsat") && win == nil {
 			w := a
 			win = &w
 			for si := range scripts {
 				for j, p := range pf.procs[si] {
-					if !got[[2]int{si, j}] {
+					if use(si, j) && !got[[2]int{si, j}] {
 						p.Interrupt()
 					}
 				}
@@ -487,9 +512,9 @@ func (pf *Portfolio) Solve(scripts []string, vars []string, budgetsMs []int) Ver
 		if win.si > 0 {
 			name += fmt.Sprintf("+profile%d", win.si)
 		}
-		return Verdict{Result: win.res, Solver: name, Model: win.model, Seconds: time.Since(t0).Seconds(), Errors: errs, Profile: win.si}
+		return Verdict{Result: win.res, Solver: name, Model: win.model, Errors: *errs, Profile: win.si}, true
 	}
-	return Verdict{Result: "unknown", Seconds: time.Since(t0).Seconds(), Errors: errs}
+	return Verdict{Result: "unknown", Errors: *errs}, false
 }
 
 // Interrupt kills the solver process; the pending RunScript returns unknown and the process is restarted lazily.
